@@ -5,6 +5,7 @@ CONSTANTS
   Profile = "fns"
   Backend = "sqlite"
   Deviations = {}
+  LongN = 1201
   CpsMode = FALSE
 INVARIANT Export09
 CHECK_DEADLOCK FALSE
